@@ -552,6 +552,13 @@ func vcGen(r *vfRng) vfCase {
 			c.Ops = append(c.Ops, []int64{11, meta})
 		}
 	}
+	if cidr != 0 && r.chance(50) {
+		// several alive messages from one sender in a row (the parts of one compound packet): each is vetted on its own
+		src := int64(r.n(len(vcAddrs) + len(vcSrcExtra)))
+		for k, nb := 0, 2+r.n(2); k < nb; k++ {
+			c.Ops = append(c.Ops, []int64{1, src, vcIncs[3+r.n(2)], int64(1 + r.n(len(vcNames)-1)), 1 + int64(r.n(2)), int64(r.n(len(vcMetas))), 2})
+		}
+	}
 	return c
 }
 
@@ -658,6 +665,86 @@ func vcSerial(t *testing.T, c *vfCase, st *vfStats) {
 	st.OpHist["concurrent_callbacks"]++
 }
 
+// the suspicion timeout callback has two halves: it checks that the member is still suspected, releases the node
+// lock, logs, and only then applies the death claim.  A claim that gets in between (here: delivered from inside
+// the log call, which runs with no lock held) is processed first; the death claim is then judged against what the
+// node knows by then.  k: 0 the member's refutation (alive, incarnation + 1), 1 a stale alive at the suspected
+// incarnation, 2 somebody else's death claim, 3 a newer suspicion from a peer
+type vcHookWriter struct {
+	fired bool
+	hook  func()
+}
+
+func (w *vcHookWriter) Write(p []byte) (int, error) {
+	if !w.fired && bytes.Contains(p, []byte("suspect timeout reached")) {
+		w.fired = true
+		w.hook()
+	}
+	return len(p), nil
+}
+
+type vcLeaves struct{ n atomic.Int32 }
+
+func (e *vcLeaves) NotifyJoin(*Node)   {}
+func (e *vcLeaves) NotifyUpdate(*Node) {}
+func (e *vcLeaves) NotifyLeave(n *Node) {
+	if n.Name == "b" {
+		e.n.Add(1)
+	}
+}
+
+func vcSplit(t *testing.T, c *vfCase, st *vfStats) {
+	conf := DefaultLANConfig()
+	conf.Name = "self"
+	conf.Transport = &vcTr{make(chan *Packet), make(chan net.Conn)}
+	w := &vcHookWriter{}
+	conf.Logger = log.New(w, "", 0)
+	ev := &vcLeaves{}
+	conf.Events = ev
+	m, err := newMemberlist(conf)
+	if err != nil {
+		t.Fatal(err)
+	}
+	if err := m.setAlive(); err != nil {
+		t.Fatal(err)
+	}
+	vsn := []uint8{ProtocolVersionMin, ProtocolVersionMax, ProtocolVersion2Compatible, 0, 0, 0}
+	m.aliveNode(&alive{Incarnation: 1, Node: "b", Addr: []byte{10, 0, 0, 2}, Port: 7946, Vsn: vsn}, nil, false)
+	w.hook = func() {
+		switch c.Ops[0][0] {
+		case 0:
+			m.aliveNode(&alive{Incarnation: 2, Node: "b", Addr: []byte{10, 0, 0, 2}, Port: 7946, Vsn: vsn}, nil, false)
+		case 1:
+			m.aliveNode(&alive{Incarnation: 1, Node: "b", Addr: []byte{10, 0, 0, 2}, Port: 7946, Vsn: vsn}, nil, false)
+		case 2:
+			m.deadNode(&dead{Incarnation: 1, Node: "b", From: "x"})
+		default:
+			m.suspectNode(&suspect{Incarnation: 2, Node: "b", From: "x"})
+		}
+	}
+	m.suspectNode(&suspect{Incarnation: 1, Node: "b", From: "self"})
+	// long enough for the first timeout, not for a suspicion started from inside the hook
+	time.Sleep(suspicionTimeout(conf.SuspicionMult, 2, conf.ProbeInterval) + time.Millisecond)
+	synctest.Wait()
+	var state, inc int64 = -1, -1
+	m.nodeLock.RLock()
+	if ns, ok := m.nodeMap["b"]; ok {
+		state, inc = int64(ns.State), int64(ns.Incarnation)
+	}
+	m.nodeLock.RUnlock()
+	listed := false
+	for _, mem := range m.Members() {
+		if mem.Name == "b" {
+			listed = true
+		}
+	}
+	c.Obs = [][]int64{{vcB(w.fired), state, inc, vcB(listed), int64(ev.n.Load())}}
+	st.Ops += 3
+	st.OpHist["claim_between_timeout_check_and_death_claim"]++
+	m.Shutdown()
+	time.Sleep(3 * time.Hour)
+}
+
 func vcB(b bool) int64 {
 	if b {
 		return 1
@@ -685,9 +772,18 @@ func TestVfCore(t *testing.T) {
 			cases = append(cases, vfCase{Tag: "callbacks are serialised", Cfg: []int64{99}, Ops: [][]int64{{int64(k)}}})
 		}
 	}
+	if !replay && (vfPropEnv() == "" || vfPropEnv() == "C06") {
+		for k := 0; k < 4; k++ {
+			cases = append(cases, vfCase{Tag: "a claim arrives between the suspicion timeout's check and its death claim", Cfg: []int64{98}, Ops: [][]int64{{int64(k)}}})
+		}
+	}
 	for i := range cases {
 		if len(cases[i].Cfg) == 1 && cases[i].Cfg[0] == 99 {
 			vcSerial(t, &cases[i], st)
+			continue
+		}
+		if len(cases[i].Cfg) == 1 && cases[i].Cfg[0] == 98 {
+			synctest.Test(t, func(t *testing.T) { vcSplit(t, &cases[i], st) })
 			continue
 		}
 		synctest.Test(t, func(t *testing.T) { vcRun(t, &cases[i], st) })
